@@ -1259,7 +1259,16 @@ impl<'a> Monitor<'a>
                 let prop = if once { "C15" } else { prop };
                 let src_alive = match source { Some(Name::Ent(e)) => self.ents[e as usize].alive, _ => true };
                 // reactions on behalf of a dead entity are the stale-reference property
+                let dispatch_prop = prop;
                 let prop = if !src_alive && matches!(kind, Kind::EntityEvent | Kind::Insertion(_)) { "C18" } else { prop };
+                if prop != dispatch_prop
+                {
+                    // ... and still a delivery that no live registration accounts for (C01) / that a revoked
+                    // registration received (C06), whatever the state of the entity it names
+                    self.viol(dispatch_prop, "R-dispatch", format!("{sig}:{:?}:src_alive={src_alive}", kind_class(kind)),
+                        format!("the implementation applied a {:?} command for actor {actor} (source {:?}, gone) that no \
+                            applied operation and live registration accounts for", kind, source));
+                }
                 if !src_alive && matches!(kind, Kind::Insertion(_))
                 {
                     self.viol("C14", "R-dispatch", format!("{sig}:{:?}:src_alive={src_alive}", kind_class(kind)),
@@ -1480,6 +1489,14 @@ impl<'a> Monitor<'a>
                     {
                         self.viol("C02", "R-reach", format!("live-idle-target-aborted:{:?}", decision),
                             format!("actor {actor} exists and is idle but its command was dropped ({:?})", decision));
+                        // a replayed (postponed) command that is dropped although its target should exist: the
+                        // postponement clause as well
+                        if obl.map(|i| self.obls[i].state == OState::Postponed).unwrap_or(false)
+                        {
+                            self.viol("C09", "R-window", format!("postponed-aborted:{:?}", decision),
+                                format!("a command postponed for actor {actor} was dropped on replay ({:?}) although \
+                                    the actor should exist", decision));
+                        }
                     }
                 }
                 else if alive && busy
@@ -1718,7 +1735,10 @@ impl<'a> Monitor<'a>
             {
                 Some(c) =>
                 {
-                    if !self.removal_tracked[comp_idx(c)] { self.polled[pi].closed = true; continue; }
+                    // no removal reader exists for this component type yet: the implementation has not looked at
+                    // this removal, and a reader installed later (first registration) still sees it; it stays open so
+                    // that a reactor registered between the removal and the first poll that can see it may react
+                    if !self.removal_tracked[comp_idx(c)] { continue; }
                     for (ri, r) in self.regs.iter().enumerate()
                     {
                         if !r.live || r.since > p.at { continue; }
@@ -1812,6 +1832,14 @@ impl<'a> Monitor<'a>
             self.viol(prop, rule, format!("unfinished-at-tree-end:{:?}:{:?}", o.state, kind_class(o.kind)),
                 format!("the tree ended but obligation actor={} kind={:?} payload={:?} created by {:?} is still {:?}",
                     o.actor, o.kind, o.payload, o.creator, o.state));
+            // a reaction command that was applied but never handed to the runner (no decision was ever taken on
+            // it): the delivery was lost in the dispatch layer - a matching live registration was skipped
+            if o.state == OState::Reached && !matches!(o.kind, Kind::Manual | Kind::SysEvent) && self.actor_alive(o.actor)
+            {
+                self.viol("C01", "R-dispatch", format!("applied-never-handed-to-runner:{:?}", kind_class(o.kind)),
+                    format!("the reaction command for actor={} kind={:?} created by {:?} was applied but the runner was \
+                        never asked to run it", o.actor, o.kind, o.creator));
+            }
         }
         self.update_refcounts();
     }
@@ -2268,5 +2296,10 @@ pub fn run_monitor(cfg: &Config, trace: &[TEv]) -> MonitorOut
 {
     let mut m = Monitor::new(cfg);
     for (i, ev) in trace.iter().enumerate() { m.step(i, ev); }
-    m.finish(trace)
+    let mut out = m.finish(trace);
+    if !cfg.only_props.is_empty()
+    {
+        out.violations.retain(|v| v.property == "*" || cfg.only_props.contains(&v.property.as_str()));
+    }
+    out
 }
